@@ -72,7 +72,8 @@ let () =
       let ps = match rest with p :: _ -> List.map parse_param p | [] -> [] in
       let a = { a_id = n_of_int (int_of_string aid); a_fn = n_of_int (int_of_string fn);
                 a_toks = List.map (fun t -> Hashtbl.find vocab (int_of_string t)) toks;
-                a_params = ps; a_neg = (neg = "1"); a_generic = (gen = "1") } in
+                a_params = ps; a_neg = (neg = "1") } in
+      if a_generic a <> (gen = "1") then Printf.printf "E generic flag of alias %s differs from its parameter types\n" aid;
       aliases := a :: !aliases;
       trie := declare !trie a
     | ["C"; cid; start; bty] :: stream :: rest ->
